@@ -189,8 +189,9 @@ PROP = dict(
         "`try_inverse() = None` is a panic site outside the theorem), recomputed by the harness with the same nalgebra calls and "
         "validated per case against the box the implementation builds (ZCurve hook); f64::log / exp (erode) are arbitrary "
         "functions in the theorems and not compared in the runs; model = code is checked on the assignments after every outer "
-        "iteration (runs with smaller max_iter) and on the final partitions, not on influences / bounds themselves (no hook "
-        "exports them), translator: 4 literals + 26 guard / operator shapes (C02_kmeans_source_shape)",
+        "iteration (runs with smaller max_iter) and on the final partitions; influences / bounds / assignments of every "
+        "assignment step are compared bit for bit only when /repo carries the kmeans_assign / kmeans_bounds / kmeans_influences "
+        "records (detected at run time), translator: 4 literals + 26 guard / operator shapes (C02_kmeans_source_shape)",
         "k-means runs: usize overflow of `1 + max id` and more than 20 clusters (rayon's par_sort_by switches from insertion to "
         "merge sort: same result unless a distance is NaN) are not modelled",
         "the per-algorithm theorems for VnBest/VnFirst/FM/KL/ArcSwap are derived from the property theorems of Properties/C14, C07, C15, C05 "
